@@ -29,7 +29,7 @@ REQUIRED = [
     "maskPositions_spec", "maskPositions_sorted", "select_eq_zip_filter",
     "error_leaves_state", "convert_refines", "setitem_scalar_mask_on_masked_ignores_mask",
     # component arrays (.x .y .z .w / .r .g .b .a / .min .max): intended behaviour + refutation for the getters as first examined
-    "component_refines", "component_protected", "component_asWritten_drops_mask",
+    "component_refines", "component_protected", "component_asWritten_drops_mask", "component_witness_run",
     "component_asWritten_empty_mask_reads_out_of_bounds",
     "array2d_item_refines", "array2d_getslice_forward_refines", "array2d_forward_slices_accepted", "array2d_setitem_int_refines", "matrix_row_refines",
     # 2-D / matrix / variable-array WRITES, string comparison, exported contents (were correspondence-only)
@@ -148,6 +148,7 @@ class Corr:
         self.nontrivial = 0
         self.aliased = 0
         self.oob = collections.Counter()
+        self.devkeys = collections.Counter()
 
     def stats(self, lines, real):
         for l, r in zip(lines, real):
@@ -196,13 +197,26 @@ class Corr:
             self.note_key(key, prog, "model: " + m, r, cls, "corr:%s:%s:model=real" % (name, cls))
         if spec:
             rc, sp = c19lib.run_spec(text)
-            dev, al, n2 = c19lib.compare_spec_real(index, lines, sp, real)
+            rc, spq = c19lib.run_spec(text, quirks=c19lib.KNOWN_QUIRKS)
+            dev, al, n2, known = c19lib.compare_spec_real(index, lines, sp, real, spq)
             self.aliased += al
-            chk.oblige("corr:%s:%s:real=python-list" % (name, cls), "spec-correspondence", not dev,
-                       {"lines": n2, "deviations": len(dev), "outside_quantifier(aliased/backward-2d)": al})
+            obl = "corr:%s:%s:real=python-list" % (name, cls)
+            bykey = collections.Counter()
+            events = []
+            for (pno, kind, k, a, b) in known:
+                events.append((c19lib.MASK_KEY, pno, k, a, b))
             for (pno, kind, k, a, b) in dev:
                 prog = c19lib.program_lines(index, lines, pno)[:k + 1]
-                self.note_key(c19lib.classify(prog, k, a, b), prog, a, b, cls, "corr:%s:%s:real=python-list" % (name, cls))
+                events.append((c19lib.classify(prog, k, a, b), pno, k, a, b))
+            for (key, pno, k, a, b) in events:
+                bykey[key] += 1
+            self.devkeys.update(bykey)
+            chk.oblige(obl, "spec-correspondence", not events,
+                       {"lines": n2, "deviations_by_key": dict(bykey), "unknown_deviations": len(dev),
+                        "continued_after_known_deviation": len(known), "outside_quantifier(aliased/backward-2d)": al})
+            for (key, pno, k, a, b) in events:
+                prog = c19lib.program_lines(index, lines, pno)[:k + 1]
+                self.note_key(key, prog, a, b, cls, obl)
         return index, lines, model_lines, real
 
     def note_key(self, key, prog, a, b, cls, obl=None):
@@ -221,13 +235,13 @@ class Corr:
 
 def shrink_spec(prog, key, cls):
     def fails(p):
-        k, m, a, b = c19lib.first_spec_real_deviation(p, cls)
+        k, m, a, b, kk = c19lib.first_spec_real_deviation(p, cls)
         if k is None:
             return False, m
-        return c19lib.classify(p, k, a, b) == key, m
+        return kk == key, m
     try:
         small = c19lib.shrink(list(prog), fails)
-        k, m, a, b = c19lib.first_spec_real_deviation(small, cls)
+        k, m, a, b, kk = c19lib.first_spec_real_deviation(small, cls)
         return small[:k + 1] if k is not None else prog
     except Exception:
         return prog
@@ -905,9 +919,12 @@ def run(chk):
                        "refinement theorems for writes assume the right-hand side / mask lives in another allocation (aliased cases are outside "
                        "the quantifier, as list semantics evaluate the right-hand side first; model and implementation are still compared on "
                        "them, and no_oob_current covers them: no aliasing hypothesis)",
-                       "no_oob_current / step_preserves_WF: allocation requests fit Py_ssize_t (OpOK); the invariant is 'dense array or masked "
-                       "reference of one' — what the 16 statements can build; component arrays, matrix rows (strided views) are outside `Op` "
-                       "and have their own well-formedness theorems (component_refines, matrix_row_refines)",
+                       "no_oob_current / step_preserves_WF: the 18-statement machine (16 on arrays + allocWide + comp); side conditions OpsOK = "
+                       "allocation requests fit Py_ssize_t, vector arrays are filled with whole elements, `.x` is taken of a vector array "
+                       "(off = 0, k < stride) — what Python's classes enforce; matrix rows, 2-D / VArray / string statements are outside `Op` "
+                       "and have their own per-operation theorems",
+                       "the open finding setitem-scalar-mask-on-masked-ref-ignores-mask is recognised by its EXACT effect (second spec "
+                       "executor); programs continue against that re-synchronised reference",
                        "element values are small integers (no int32 wrap-around in +=); rows of V2 element type grown by `size[...] = k` are "
                        "uninitialised in C++ (the harness zero-fills them before comparing)",
                        "FixedVArray / FixedArray2D / FixedMatrix: backward slices are outside the property's quantifier (model = real is still "
@@ -972,6 +989,9 @@ def run(chk):
         fl = FLAG_OF.get(name)
         if fl is None:
             continue
+        if name == "component-of-masked":
+            # the mask of the witness is an IntArray whatever the class under test (`Op.alloc` prints as `alloc`)
+            prog = [("alloci " + l[6:]) if l.startswith("alloc ") else l for l in prog]
         txt = "\n".join(prog) + "\n"
         _, r = c19lib.run_real(txt, WCLS.get(name, "IntArray"))
         outs = {}
@@ -1018,9 +1038,12 @@ def run(chk):
 
     # ---- IntArray exhaustive stream under the decided variant (must reproduce the real module line by line)
     t0 = time.time()
-    ex_programs = list(c19lib.corpus_programs()) + list(c19_gen.exhaustive_1d())
+    ex_programs = list(c19lib.corpus_programs()) + list(c19_gen.exhaustive_1d(targets=classes.get("IntArray", {}).get("convert_targets") or ()))
     co.campaign("exhaustive", ex_programs, "IntArray")
-    chk.exhaustive = True
+    # exhaustive WITHIN the stated small scope for IntArray only; every other class runs a reduced scope (see `rule`)
+    chk.exhaustive = False
+    chk.extra["exhaustive_scope"] = ("IntArray: every program of the families of c19_gen.exhaustive_1d at lengths 0..6, indices / slice "
+                                     "bounds in [-8,8], steps in [-3,3], every 0/1 mask of length <= 5; all other classes: reduced scope")
     chk.extra["exhaustive_s"] = round(time.time() - t0, 1)
 
     # ---- every other FixedArray class: reduced exhaustive scope, in parallel
@@ -1033,7 +1056,8 @@ def run(chk):
         boolish = c == "BoolArray"
         narrow = c in ("SignedCharArray", "UnsignedCharArray", "BoolArray")     # += would wrap around 8 bits
         progs = list(c19_gen.exhaustive_1d(maxlen=4 if big else 3, rng=5 if big else 4, steps=2, masklen=4 if big else 3,
-                                           mrng=3 if big else 2, iadd=v["iadd"] and not narrow, convert=bool(v["convert"]), full=False))
+                                           mrng=3 if big else 2, iadd=v["iadd"] and not narrow, convert=bool(v["convert"]), full=False,
+                                           targets=v.get("convert_targets") or (), copyproto=bool(v.get("copy_protocol"))))
         if boolish:
             progs = list(c19_gen.boolify(progs))
         sub = Corr(chk)
@@ -1050,6 +1074,7 @@ def run(chk):
             co.mism_classes.setdefault(op, set()).add(c)
         co.lines += sub.lines; co.nontrivial += sub.nontrivial; co.aliased += sub.aliased
         co.opcount.update(sub.opcount); co.errcount.update(sub.errcount); co.kindcount.update(sub.kindcount); co.oob.update(sub.oob)
+        co.devkeys.update(sub.devkeys)
     with ThreadPoolExecutor(min(lib.NCPU, 12)) as exr:
         for c, sub in exr.map(typed_run, typed):
             merge(c, sub)
@@ -1065,7 +1090,8 @@ def run(chk):
         fullc = c == "V3iArray"
         narrow = v["comp"]["ccls"] in ("UnsignedCharArray", "SignedCharArray")
         progs = list(c19_gen.exhaustive_comp(v["comp"]["w"], maxlen=(4 if fullc or big else 3), iadd=not narrow, full=fullc or big,
-                                             elemset=bool(v["comp"].get("elemset"))))
+                                             elemset=bool(v["comp"].get("elemset")), settuple=bool(v.get("settuple")),
+                                             setlist=bool(v.get("setlist"))))
         sub = Corr(chk)
         sub.cfg = best
         sub.campaign("component", progs, c)
@@ -1092,9 +1118,12 @@ def run(chk):
     co.campaign("array2d", list(c19_gen.exhaustive_2d(4 if not chk.thorough else 5)), "IntArray")
     co.campaign("matrix", list(c19_gen.exhaustive_matrix(4 if not chk.thorough else 6)), "IntArray")
     # every other FixedArray2D / FixedMatrix class (elements of the class under test; masks stay IntArray2D)
-    p2 = list(c19_gen.exhaustive_2d(2 if not chk.thorough else 4))
+    T2 = {"IntArray": ["FloatArray2D", "DoubleArray2D"], "FloatArray": ["IntArray2D", "DoubleArray2D"],
+          "DoubleArray": ["IntArray2D", "FloatArray2D"]}
+    p2f = lambda c: list(c19_gen.exhaustive_2d(2 if not chk.thorough else 4, targets=T2.get(c, ()), settuple=c.startswith("C4")))
+    co.campaign("array2d", [p for p in c19_gen.exhaustive_2d(1, targets=T2["IntArray"]) if p[0] == "2d-convert"], "IntArray")
     pm = list(c19_gen.exhaustive_matrix(3 if not chk.thorough else 5))
-    jobs = [("array2d", p2, c) for c in ("FloatArray", "DoubleArray", "C4fArray", "C4cArray") if c in classes] + \
+    jobs = [("array2d", p2f(c), c) for c in ("FloatArray", "DoubleArray", "C4fArray", "C4cArray") if c in classes] + \
            [("matrix", pm, c) for c in ("FloatArray", "DoubleArray") if c in classes]
 
     def d2_run(job):
@@ -1147,6 +1176,7 @@ def run(chk):
     chk.extra["program_families"] = dict(co.kindcount.most_common())
     chk.extra["outside_quantifier_lines(aliased rhs / backward 2-D slices)"] = co.aliased
     chk.extra["oob_predicted_by_model"] = dict(co.oob)
+    chk.extra["list_spec_deviations_by_key(all campaigns)"] = dict(co.devkeys)
 
     t0 = time.time()
     # ---- model / implementation mismatches: the model no longer describes the code
